@@ -1,5 +1,5 @@
 # C10 / C01 (scale-in start): MetaStoreMigrate::remove_slots_from_src_to_scale_down (src/broker/migrate.rs) - for the states
-# migrate_slots_to_scale_down hands over (every half owns slots, the kept masters still have room): no arithmetic overflow, no failing
+# migrate_slots_to_scale_down hands over (every half owns slots, no kept master is over its final share): no arithmetic overflow, no failing
 # expect, termination; the kept chunks are untouched, the trailing chunks lose only their stable halves (both become empty), every
 # produced migration goes from a half of a trailing chunk to a half of a kept chunk with valid indices and the given epoch.
 # NOT proved here: that every slot of a trailing chunk is carried by a migration (needs the global counting argument).
@@ -73,7 +73,7 @@ def build(U):
     f.apply_overlay('remove_slots_down')
     U.add_fn(f)
     U.add('}\n} // verus!\nfn main() {}\n')
-    U.trust('precondition (the states migrate_slots_to_scale_down hands over): every half owns a well-formed range list of at most 16384 slots, 1 <= new_chunk_num < number of chunks <= 8192, and every kept master holds fewer slots than its final share',
+    U.trust('precondition (the states migrate_slots_to_scale_down hands over): every half owns a well-formed range list of at most 16384 slots, 1 <= new_chunk_num < number of chunks <= 8192, and no kept master holds more than its final share',
             'RangeList::new / get_slots_num through their contracts proved in units range_list / remove_slots; D3, D6, D20, R6')
 
 RLIMIT = 80
